@@ -207,9 +207,11 @@ def wrap_paragraph_lines(
             # Recalculate width after potential escaping for the new line.
             escaped_word_width = len_fn(escaped_word)
 
-            # Start the new line with the (potentially escaped) word
+            # Start the new line with the (potentially escaped) word. If no line has been
+            # emitted yet, the word stays on the first line, which starts at `initial_column`.
             current_line = [escaped_word]
-            current_width = subsequent_offset + escaped_word_width
+            line_offset = initial_column if first_line else subsequent_offset
+            current_width = line_offset + escaped_word_width
 
     # Add the last line if necessary.
     if current_line:
